@@ -19,13 +19,13 @@ CFG = {
     "stages": ["go:gen", "go:impl", "lean:judge"],
     "theorems": [T + n for n in [
         # the property
-        "C04_len", "C04_points", "C04_points_prefix", "C04_bounds", "C04_bounds_partial", "C04_bounds_empty_iff",
+        "C04_len", "C04_points", "C04_points_prefix", "C04_bounds", "C04_bounds_sets", "C04_bounds_partial", "C04_bounds_empty_iff",
         "C04_extend_join", "C04_extend_canon", "C04_extend_laws", "C04_extend_laws_sets", "C04_extend_empty",
         "C04_overlaps", "C04_intersection", "C04_copy", "C04_empty",
         # the hypotheses are needed (witnesses)
-        "C04_bounds_emptybox_counterexample",
+        "C04_bounds_noncanon_counterexample",
         # the judge's decidable checks are the semantic specification
-        "C04_spec_envelope", "C04_spec_join", "C04_spec_sharePoint", "C04_spec_intersection", "C04_spec_empty",
+        "C04_spec_envelope", "C04_spec_envelopeSet", "C04_spec_join", "C04_spec_sharePoint", "C04_spec_intersection", "C04_spec_empty",
         # the executed coordinate type is an instance of the theorems
         "C04_exec", "FKey.instances_agree",
         # T1: definitions regenerated from bounds.go / point.go of the tree under test = the model's (rfl)
@@ -71,7 +71,9 @@ CFG = {
         "no nil interface value inside a GeometryCollection (nil is not one of the eight types; model and code both fault there, checked as correspondence only)",
         "C04_overlaps, C04_intersection, C04_extend_join, C04_extend_laws_sets hold for ALL boxes (empty, inverted, infinite); "
         "C04_extend_laws (equations between boxes rather than point sets) for canonical boxes (has a point, or is NewBounds()); "
-        "C04_bounds: a *Bounds used as a geometry has a point (Len() is the constant 4; witness: C04_bounds_emptybox_counterexample; known finding)",
+        "C04_bounds (literal reading: Bounds() of a geometry without vertices is the struct NewBounds()): a *Bounds given DIRECTLY as the geometry is canonical "
+        "(has a point, or is NewBounds()); for a hand-written inverted box the box itself comes back and the clause is judged on point sets (C04_bounds_sets, "
+        "no hypothesis; witness that the literal reading fails there: C04_bounds_noncanon_counterexample). Members of collections are unrestricted",
         "behaviour of an iterator after more than Len() calls is unspecified and not examined",
     ],
     "rule": "grammar-generated geometries of all eight types with an explicit empty-member production at every level (runs of 1-4 "
